@@ -71,6 +71,9 @@ type Knobs struct {
 	BlocklistUpdateInterval      time.Duration `json:"blocklist_update_interval,omitempty"`
 	HealthCheckTimeout           time.Duration `json:"health_check_timeout,omitempty"`
 	RPCEnabled                   bool          `json:"rpc_enabled,omitempty"`
+	BlockOutOff                  bool          `json:"block_out_off,omitempty"`
+	BlockInOff                   bool          `json:"block_in_off,omitempty"`
+	BlockTrkOff                  bool          `json:"block_trk_off,omitempty"`
 }
 
 // Apply overlays the knobs on a config.
@@ -165,6 +168,9 @@ func (k Knobs) Apply(c *torrent.Config) {
 	setD(&c.BlocklistUpdateInterval, k.BlocklistUpdateInterval)
 	setD(&c.HealthCheckTimeout, k.HealthCheckTimeout)
 	c.RPCEnabled = k.RPCEnabled
+	c.BlocklistEnabledForOutgoingConnections = !k.BlockOutOff
+	c.BlocklistEnabledForIncomingConnections = !k.BlockInOff
+	c.BlocklistEnabledForTrackers = !k.BlockTrkOff
 }
 
 // ---------------------------------------------------------------------------
@@ -195,6 +201,9 @@ func NewEnv(seed uint64, tmp string) *Env {
 func (e *Env) NewHost(name, role string) *simrt.Host {
 	e.nextIP++
 	ip := fmt.Sprintf("10.%d.%d.%d", 1+e.nextIP/60000, (e.nextIP/250)%250, 1+e.nextIP%250)
+	if name == "sut" {
+		ip = simnet.SUTAddr
+	}
 	return &simrt.Host{Name: name, IP: ip, Role: role}
 }
 
